@@ -37,7 +37,7 @@ def plan(tier, seed):
     for l, r, el, er in [(S8, S8, -3, 0), (U8, U8, 0, -2), (S8, U8, 1, -1), (S32, S32, -16, -12), (S32, S32, -12, -16), (U32, U16, -8, 0), (S64, S32, -20, -4),
                          (U64, U64, 3, 0), (S16, S32, -4, -8), (S32, S8, 0, 5), (U16, U16, -7, -1), (S64, S64, -30, -31)]:
         regs.append('c12::ScaledMixed<%s, %d, %s, %d>::reg("%s:%d|%s:%d")' % (l, el, r, er, short(l), el, short(r), er))
-    cases = 30000 if quick else 400000
+    cases = 60000 if quick else 600000
     units = [Unit('C12-gxx-%d' % i, 'gxx', 'props/C12.h', part, rc_cases=cases, enum_max=2 ** 22, chunk=3)
              for i, part in enumerate(split(regs, 16))]
     cl = [r for r in regs if 'int, int>' in r or 'signed char, signed char>' in r or 'DocKernels' in r][:10]
